@@ -290,6 +290,31 @@ func c04Case(w *core.Worker, i int) {
 		}
 		checkBuckets("groupby", q, buckets)
 	}
+	// 1a. the same aggregates with DISTINCT aggregates of the same column evaluated before and between them (and in HAVING):
+	// an aggregate sees exactly the rows of its bucket, whatever another aggregate did with them
+	{
+		plain := []string{"COUNT(*)", "COUNT(v)", "SUM(v)", "AVG(v)", "MIN(v)", "MAX(v)", "MEDIAN(v)", "VAR(v)", "VARP(v)", "STDEV(v)", "STDEVP(v)", "usum(v)", "JSON_AGG(v)", "LISTAGG(v, ',')"}
+		dist := []string{"COUNT(DISTINCT v)", "SUM(DISTINCT v)", "LISTAGG(DISTINCT v, ',')", "JSON_AGG(DISTINCT v)", "AVG(DISTINCT v)", "MEDIAN(DISTINCT v)", "usum(DISTINCT v)"}
+		items := []string{"LISTAGG(id, ' ')"}
+		var keep []int
+		keep = append(keep, 0)
+		for j, pa := range plain {
+			items = append(items, dist[j%len(dist)])
+			keep = append(keep, len(items))
+			items = append(items, pa)
+		}
+		q := "SELECT " + strings.Join(items, ", ") + " FROM t GROUP BY " + keyList + " HAVING COUNT(DISTINCT v) >= 0 OR TRUE"
+		if v := run(q); v != nil && n > 0 {
+			evaluated++
+			for _, row := range v.Rows {
+				var row2 []core.Val
+				for _, ix := range keep {
+					row2 = append(row2, row[ix])
+				}
+				c04Aggregates(t, vcol, parseIDs(row[0]), row2, func(sig, what string) { viol(sig+":next-to-distinct", q, what) })
+			}
+		}
+	}
 	// 1b. aggregates over the grouping columns themselves (the NULL bucket counts no value)
 	{
 		var cks []string
